@@ -94,7 +94,12 @@ func c18LiteralSeed(r *core.Rng) string {
 		}
 		return "`" + sb.String() + "`"
 	}
-	switch r.Intn(7) {
+	switch r.Intn(8) {
+	case 7:
+		// quoted names behind the variable sigils (only @% takes one)
+		sig := []string{"@", "@@", "@#", "@%"}[r.Intn(4)]
+		nm := []string{"`a b`", "`a - 1`", "`HOME`", "`x`", "`1`", "``", "`a``b`", "`né`"}[r.Intn(8)]
+		return "SELECT " + sig + nm + ", (" + sig + nm + ") + 1, " + lit()
 	case 6:
 		// function names that are quoted identifiers (user-defined functions may be called anything)
 		fns := []string{"`a^b`", "`v[1]`", "`sq]`", "`back\\slash`", "`my f`", "`my-f`", "`2f`", "`select`", "`né`", "`a.b`", "`x_1`", "`UPPER`", ident()}
